@@ -671,11 +671,7 @@ func writeTypeConversion(w *formatting.IndentedWriter, typeChange dsl.TypeChange
 			w.Indented(func() {
 				fmt.Fprintf(w, "%s = std::get<%d>(%s);\n", targetName, tc.TypeIndex, sourceName)
 			})
-			fmt.Fprintf(w, "} else {\n")
-			w.Indented(func() {
-				fmt.Fprintf(w, "%s = {};\n", targetName)
-			})
-			fmt.Fprintf(w, "}\n")
+			writeOtherUnionCasesConversion(w, tc, sourceName, targetName)
 		} else {
 			// Reading a Scalar into a Union
 			fmt.Fprintf(w, "%s = %s;\n", targetName, sourceName)
@@ -690,11 +686,7 @@ func writeTypeConversion(w *formatting.IndentedWriter, typeChange dsl.TypeChange
 			w.Indented(func() {
 				fmt.Fprintf(w, "%s = std::get<%d>(%s);\n", targetName, tc.TypeIndex, sourceName)
 			})
-			fmt.Fprintf(w, "} else {\n")
-			w.Indented(func() {
-				fmt.Fprintf(w, "%s = {};\n", targetName)
-			})
-			fmt.Fprintf(w, "}\n")
+			writeOtherUnionCasesConversion(w, tc, sourceName, targetName)
 		} else {
 			// Reading an Optional into a Union
 			fmt.Fprintf(w, "if (%s.has_value()) {\n", sourceName)
@@ -777,6 +769,22 @@ func writeTypeConversion(w *formatting.IndentedWriter, typeChange dsl.TypeChange
 	default:
 		panic("Expected a TypeChange")
 	}
+}
+
+// Completes an "if (union.index() == N) {" statement that converts the one union case that has a
+// counterpart in the target type: null becomes the zero value, any other case cannot be represented.
+func writeOtherUnionCasesConversion(w *formatting.IndentedWriter, tc dsl.TypeChange, sourceName, targetName string) {
+	if union, ok := dsl.GetUnderlyingType(tc.NewType()).(*dsl.GeneralizedType); ok && union.Cases.HasNullOption() {
+		fmt.Fprintf(w, "} else if (%s.index() == 0) {\n", sourceName)
+		w.Indented(func() {
+			fmt.Fprintf(w, "%s = {};\n", targetName)
+		})
+	}
+	fmt.Fprintf(w, "} else {\n")
+	w.Indented(func() {
+		fmt.Fprintf(w, "throw std::runtime_error(\"Source type incompatible with target type '%s'\");\n", dsl.TypeToShortSyntax(tc.OldType(), false))
+	})
+	fmt.Fprintf(w, "}\n")
 }
 
 // If a TypeChange is the result of an underlying TypeDefinition change, we don't need to perform
